@@ -1,5 +1,6 @@
 // Input  (VERIF_IN):  {"id":N,"in":{...row of CfgMapReg.tla...},"text":"<configuration text rendered by TLC>"}
-// Output (VERIF_OUT): {"t":id,"seq":2,"e":"Row","in":{...},"out":{panic,err{is,stage,line,mentions},objs,uses,order,msg}}
+// Output (VERIF_OUT): {"t":id,"seq":1,"e":"Begin"} (unbuffered, before the row runs) and
+//                     {"t":id,"seq":2,"e":"Row","in":{...},"out":{panic,err{is,stage,line,mentions},objs,uses,order,msg}}
 //
 // Layer "r": "%U" in the text is replaced by a per-row prefix (maddy's instance registry is a
 // process-wide table that is never emptied); the text is parsed by the real cfgparser and loaded with
@@ -15,6 +16,7 @@ import (
 	"os"
 	"path/filepath"
 	"regexp"
+	"runtime/debug"
 	"strconv"
 	"strings"
 	"testing"
@@ -205,8 +207,10 @@ func TestReplay(t *testing.T) {
 		t.Fatal(err)
 	}
 	defer fout.Close()
-	w := bufio.NewWriterSize(fout, 1<<20)
-	defer w.Flush()
+	// unbuffered: a crash of the code under test (a stack overflow cannot be recovered) leaves the Begin
+	// line of its row behind; the stack limit is lowered so that runaway recursion ends quickly
+	w := fout
+	debug.SetMaxStack(64 << 20)
 	sc := bufio.NewScanner(fin)
 	sc.Buffer(make([]byte, 1<<20), 1<<26)
 	for sc.Scan() {
@@ -218,6 +222,7 @@ func TestReplay(t *testing.T) {
 		if err := json.Unmarshal([]byte(line), &it); err != nil {
 			t.Fatalf("bad input line: %v", err)
 		}
+		fmt.Fprintf(w, "{\"t\":%d,\"seq\":1,\"e\":\"Begin\"}\n", it.ID)
 		var tab struct {
 			Tab string `json:"tab"`
 		}
@@ -240,8 +245,7 @@ func TestReplay(t *testing.T) {
 		if err != nil {
 			t.Fatal(err)
 		}
-		w.Write(b)
-		w.WriteByte('\n')
+		w.Write(append(b, '\n'))
 	}
 	if err := sc.Err(); err != nil {
 		t.Fatal(err)
